@@ -8,8 +8,10 @@
 mod heapwatch;
 mod lang;
 mod ops;
+mod probe;
 mod rng;
 mod suite;
+mod toy;
 
 use lang::Call;
 use ops::Session;
